@@ -22,6 +22,18 @@ mixed) under every class; the three dense forms and the probes are compared EXAC
 the dtype of both as_matrix forms must be the dtype of the columns op(e_j).  Only operators whose declared output
 structure is what mv returns are generated (C05's `params_not_wider` guard: a @square class - scalar, diagonal,
 Toeplitz - with parameters wider than its data is outside the domain).
+Complex scope (implementation-side, with a closed-form NumPy reference of every case): complex parameters on COMPLEX
+input structures (complex-linear maps; imaginary parts never zero, matrices neither symmetric nor Hermitian, so that a
+conjugation / real part / adjoint-for-transpose is visible) for every leaf class (einsum blocks, broadcast diagonals,
+diagonals and their inverses, scalars, Toeplitz dense / direct, user atoms; identity, index, pack, move-axis, ravel,
+reshape, QU rotation, HWP, polariser on complex data) under every wrapper: op.T, the lazy TransposeOperator (also
+doubled, of / under scalar multiples, negations, sums, block rows / columns / diagonals, Gram products), lazy inverses
+(LU, GMRES; CG / BiCGStab on a Hermitian positive-definite matrix) of / under lazy transposes and inside blocks, and lazy
+and class-defined transposes of products, sums and block operators.  Lazy transposes of WIDENING operators (real ->
+complex) stay outside: jax.linear_transpose of those is additive but not homogeneous over the complex scalars.
+T-tie: FuraxGen.Tables (tools/translate/tables.py: the definition of as_matrix every class resolves to) is regenerated on
+every run and tied to the model's dispatch (Props/C04.v as_matrix_resolution_as_modelled, Props/Tables.v): a new, removed
+or moved as_matrix override breaks a theorem at once and the oracle then finds the input.
 Configuration scope: every evaluation method / tuning parameter of a class - Toeplitz: 4 methods x explicit FFT
 sizes (odd and even, from the smallest admissible 2K-1) x n and K (K > n, n spanning several blocks, batched
 bands); lazy inverses: the solvers of the configuration - with a closed-form NumPy reference of the matrix.
@@ -29,13 +41,17 @@ bands); lazy inverses: the solvers of the configuration - with a closed-form Num
 from __future__ import annotations
 
 import itertools
+import sys
 from fractions import Fraction
 
 import numpy as np
 
 import alg_cases as G
 import algebra as A
+import lib
 from lib import PropertyCheck, clist
+
+sys.path.insert(0, str(lib.VERIF / 'tools' / 'translate'))
 
 SHAPES = [[2], [3], [2, 2], [1, 3], []]
 OVERRIDING_LEAVES = ('DiagonalOperator', 'SymmetricBandToeplitzOperator', 'DiagonalInverseOperator')
@@ -281,6 +297,15 @@ def build_operand(d, env):
         pre = env[d['precond']] if d.get('precond') else None
         with solver_config(d.get('solver', 'CG'), pre):
             return env[d['of']].I
+    if k == 'lazyT':  # the lazy wrapper itself, whatever transpose() the class of the operand defines
+        return j['core'].TransposeOperator(env[d['of']])
+    if k in ('qurot2', 'hwp2', 'pol2'):
+        s = A.mk_struct({'stokes': d['stokes'], 'shape': d['shape'], 'dtype': d.get('dtype', F32)})
+        if k == 'hwp2':
+            return j['hwp'].HWPOperator(s)
+        if k == 'pol2':
+            return j['pol'].LinearPolarizerOperator(s)
+        return j['qu'].QURotationOperator(A.q_angles(d['q'], tuple(d['shape'])).astype(jnp.float32), s)
     return A.build_operand(d, env)
 
 
@@ -502,7 +527,7 @@ def toeplitz_reference(band, shape) -> np.ndarray:
     """Closed form: block diagonal over the leading axes of T[i, j] = band[|i - j|] if |i - j| < K else 0."""
     import scipy.linalg
 
-    band = np.asarray(band, dtype=np.float64)
+    band = widen(band)
     n, K = shape[-1], band.shape[-1]
     bands = np.broadcast_to(band, tuple(shape[:-1]) + (K,)).reshape(-1, K)
     i, jj = np.indices((n, n))
@@ -511,39 +536,160 @@ def toeplitz_reference(band, shape) -> np.ndarray:
     return scipy.linalg.block_diag(*blocks)
 
 
+class NoReference(Exception):
+    """The description has no closed-form NumPy matrix (operands of the shared alphabet, Stokes-class operators)."""
+
+
+def norm_desc(d):
+    """Structure description in the dict forms (A.mk_struct also accepts bare shapes and lists)."""
+    if isinstance(d, list):
+        return leaf(d) if all(isinstance(i, int) for i in d) else {'list': [norm_desc(c) for c in d]}
+    if 'stokes' in d or 'shape' in d:
+        return d
+    if 'list' in d:
+        return {'list': [norm_desc(c) for c in d['list']]}
+    if 'tuple' in d:
+        return {'tuple': [norm_desc(c) for c in d['tuple']]}
+    return {'dict': {k: norm_desc(v) for k, v in d['dict'].items()}}
+
+
+def container_leaves(desc):
+    """Operand names of a block container in pytree order (dict keys sorted)."""
+    if isinstance(desc, str):
+        return [desc]
+    if isinstance(desc, list):
+        return [n for c in desc for n in container_leaves(c)]
+    if 'tuple' in desc:
+        return [n for c in desc['tuple'] for n in container_leaves(c)]
+    return [n for k in sorted(desc['dict']) for n in container_leaves(desc['dict'][k])]
+
+
+def diag_apply(v, axis, x):
+    """values * x with the values laid along the axes (axis, axis+1, ...) [axis >= 0] or (..., axis-1, axis)
+    [axis < 0] of x, by NumPy broadcasting (missing axes of x are appended / prepended)."""
+    if not isinstance(axis, int):
+        raise NoReference('axis tuple')
+    nd = v.ndim
+    if axis >= 0:
+        vv = v.reshape((1,) * axis + v.shape + (1,) * max(0, x.ndim - axis - nd))
+        return vv * x.reshape(x.shape + (1,) * max(0, axis + nd - x.ndim))
+    return v.reshape(v.shape + (1,) * (-axis - 1)) * x
+
+
+def leaf_apply(d, xs):
+    """NumPy action of a leaf description on the input leaves xs (pytree order) -> output leaves (pytree order)."""
+    k = d['k']
+    if k == 'ident':
+        return xs
+    if k in ('homoth', 'homoth2'):
+        v = d['v']
+        v = np_arr(v) if isinstance(v, dict) and 'dt' in v else py_scalar(v)
+        return [v * x for x in xs]
+    if k in ('diag', 'bdiag', 'diag2', 'bdiag2'):
+        v = np_arr(d['v'])
+        return [diag_apply(v, d.get('axis', 0), x) for x in xs]
+    if k == 'uscale':
+        v = np_arr(d['v'])
+        return [v * x for x in xs]
+    if k == 'dense2':
+        b = np_arr(d['b'])
+        return [np.einsum(d.get('sub') or 'ij...,j...->i...', b, x) for x in xs]
+    if k == 'toeplitz2':
+        band = np_arr(d['band'])
+        return [(toeplitz_reference(band, x.shape) @ x.ravel()).reshape(x.shape) for x in xs]
+    if k == 'index':
+        if len(d['idx']) != 1 or not (isinstance(d['idx'][0], dict) and 'arr' in d['idx'][0]) or 'out' in d:
+            raise NoReference('index form')
+        return [x[np.array(d['idx'][0]['arr'])] for x in xs]
+    if k == 'pack':
+        return [x[np.array(d['mask'], dtype=bool)] for x in xs]
+    if k == 'moveaxis':
+        return [np.moveaxis(x, d['src'], d['dst']) for x in xs]
+    if k == 'ravel':
+        if d.get('first', 0) != 0 or d.get('last', -1) != -1:
+            raise NoReference('partial ravel')
+        return [x.reshape(-1) for x in xs]
+    if k == 'reshape':
+        return [x.reshape(d['shape']) for x in xs]
+    raise NoReference(k)
+
+
+def leaf_reference(d):
+    if d['k'] == 'mix':
+        m = np.array(d['m'], dtype=np.float64)
+        return m + 1j * np.array(d['mi'], dtype=np.float64) if d.get('mi') is not None else m
+    if d['k'] == 'dense':
+        return np.array(d['m'], dtype=np.float64)
+    if 's' not in d:
+        raise NoReference(d['k'])
+    leaves = desc_leaves(norm_desc(d['s']))
+    sizes = [int(np.prod(l['shape'])) if l['shape'] else 1 for l in leaves]
+    cols = []
+    for col in np.eye(sum(sizes)):
+        xs, pos = [], 0
+        for l, n in zip(leaves, sizes):
+            xs.append(col[pos : pos + n].reshape(l['shape']))
+            pos += n
+        ys = leaf_apply(d, xs)
+        cols.append(np.concatenate([np.asarray(y).ravel() for y in ys]) if ys else np.zeros(0))
+    return np.stack(cols, axis=1) if cols else np.zeros((0, 0))
+
+
+def ref_matrix(e, let):
+    """Closed-form NumPy matrix of an expression over the `let` descriptions of a case (no furax code): leaves by
+    their formulas, .T / lazy transposes as the PLAIN transpose, inverses by np.linalg.inv, products, sums, scalar
+    multiples, block rows / diagonals / columns by hstack / block_diag / vstack in pytree order."""
+    import scipy.linalg
+
+    r = lambda x: ref_matrix(x, let)  # noqa: E731
+    if isinstance(e, str):
+        if e not in let:
+            raise NoReference(e)
+        d = let[e]
+        k = d['k']
+        if k == 'expr':
+            return r(d['e'])
+        if k == 'lazyT':
+            return r(d['of']).T
+        if k == 'inv':
+            return np.linalg.inv(r(d['of']))
+        if k in ('smul2', 'rmul2'):
+            return py_scalar(d['c']) * r(d['of'])
+        if k == 'div2':
+            return r(d['of']) / py_scalar(d['c'])
+        if k in ('row', 'bdiagop', 'col'):
+            ms = [r(n) for n in container_leaves(d['blocks'])]
+            return np.hstack(ms) if k == 'row' else np.vstack(ms) if k == 'col' else scipy.linalg.block_diag(*ms)
+        return leaf_reference(d)
+    (kind, arg), = e.items()
+    if kind in ('mm', 'chain', 'rchain', 'comp'):
+        ms = [r(x) for x in arg]
+        out = ms[0]
+        for m in ms[1:]:
+            out = out @ m
+        return out
+    if kind in ('add', 'sum'):
+        return sum(r(x) for x in arg)
+    if kind == 'sub':
+        return r(arg[0]) - r(arg[1])
+    if kind == 'neg':
+        return -r(arg)
+    if kind == 'T':
+        return r(arg).T
+    if kind == 'I':
+        return np.linalg.inv(r(arg))
+    if kind in ('smul', 'mulr', 'div') and not isinstance(arg[0 if kind == 'smul' else 1], dict):
+        return arg[0] * r(arg[1]) if kind == 'smul' else r(arg[0]) * arg[1] if kind == 'mulr' else r(arg[0]) / arg[1]
+    raise NoReference(kind)
+
+
 def reference(case):
     """Independent NumPy matrix of the operator of the case, from its JSON description alone (closed formulas;
     no furax code).  None when the case has no such formula."""
-    e = case.get('e')
-    d = case.get('let', {}).get(e) if isinstance(e, str) else None
-    if d is None:
+    try:
+        return ref_matrix(case.get('e'), case.get('let', {}))
+    except NoReference:
         return None
-    k = d['k']
-    if k == 'toeplitz2' and 'shape' in d['s']:
-        return toeplitz_reference(np_arr(d['band']), d['s']['shape'])
-    if k == 'mix':
-        m = np.array(d['m'], dtype=np.float64)
-        return m + 1j * np.array(d['mi'], dtype=np.float64) if d.get('mi') is not None else m
-    leaves = desc_leaves(d['s']) if 's' in d else []
-    if k == 'uscale':
-        v = np_arr(d['v'])
-        return np.diag(np.concatenate([np.broadcast_to(v, tuple(l['shape'])).ravel() for l in leaves]))
-    if k == 'dense2':
-        b = np_arr(d['b'])
-        sub = d.get('sub') or 'ij...,j...->i...'
-        blocks_ = []
-        for l in leaves:
-            n = int(np.prod(l['shape'])) if l['shape'] else 1
-            cols = [np.einsum(sub, b, col.reshape(l['shape'])).ravel() for col in np.eye(n)]
-            blocks_.append(np.stack(cols, axis=1))
-        import scipy.linalg
-
-        return scipy.linalg.block_diag(*blocks_)
-    if k == 'homoth2':
-        v = d['v']
-        v = np_arr(v) if isinstance(v, dict) and 'dt' in v else py_scalar(v)
-        return v * np.eye(desc_size(d['s']))
-    return None
 
 
 def rows_json(m):
@@ -569,9 +715,9 @@ def decode_cols(v):
 
 class Check(PropertyCheck):
     id = 'C04'
-    props = ['C04.v']
-    static_targets = ['theories/Model/AsMatrix.vo', 'theories/Lemmas/AsMatrixL.vo', 'theories/Lemmas/AsMatrixExecL.vo',
-                      'theories/Lemmas/AsMatrixLoopL.vo']
+    props = ['Tables.v', 'C04.v']
+    static_targets = ['theories/Model/Pinned.vo', 'theories/Lemmas/TablesL.vo', 'theories/Model/AsMatrix.vo',
+                      'theories/Lemmas/AsMatrixL.vo', 'theories/Lemmas/AsMatrixExecL.vo', 'theories/Lemmas/AsMatrixLoopL.vo']
     coq_header = A.COQ_HEADER + 'From Furax Require Import Model.Wf Model.AsMatrix.\n'
     shard = 60
     workers = 8
@@ -586,6 +732,10 @@ class Check(PropertyCheck):
         'hypotheses, validated by the correspondence on every case; discharging lin_facts for Exec.leafsem was not done'
     )
     trusted = [
+        'translator tools/translate/tables.py (which definition of as_matrix - and of the other dunder / structure '
+        'methods - every operator class resolves to, read from the imported package by walking the MRO; fails closed on '
+        'unknown classes); tied to the dispatch of the model by as_matrix_resolution_as_modelled and to the pinned table '
+        'by Props/Tables.v',
         'leaf operators (dense einsum atoms, index, pack, move-axis, Toeplitz, n-d diagonals, user-defined operators, '
         'iterative inverses, generic lazy transposes) act in the executable model through dense matrices measured on the '
         'real objects; the theorems quantify over arbitrary leaf semantics satisfying `lin_facts` (Lemmas/AsMatrixL.v): '
@@ -607,6 +757,13 @@ class Check(PropertyCheck):
         'implementation: the three real dense forms and the probes are compared exactly in complex double precision and '
         'the dtype of both as_matrix forms must be the dtype of the columns op(e_j); cases with real data of any dtype '
         'are also compared with the model, cases with complex data are not (the executable model is over the rationals)',
+        'complex scope (complex parameters on complex structures, every class under every wrapper): judged on the '
+        'implementation only - the three dense forms, the linearity probes (complex integer coefficients and data) and a '
+        'closed-form NumPy matrix of the whole expression (leaf formulas; .T and lazy transposes = the PLAIN transpose; '
+        'np.linalg.inv; products, sums, hstack / vstack / block_diag in pytree order) compared in complex double '
+        'precision; lazy transposes of widening (real -> complex) operators are not generated (not complex-linear); the '
+        'FFT methods of the Toeplitz class take the real part of their result (the class is annotated for real data): '
+        'complex bands are generated for the dense and direct methods only',
         'only operators whose declared output structure is what mv returns are generated: a @square class (scalar, '
         'diagonal, Toeplitz) with parameters wider than its data (complex values on a real structure, float values on an '
         'integer structure, hence also complex_scalar * real_operator) declares the narrow structure and its as_matrix '
@@ -615,6 +772,15 @@ class Check(PropertyCheck):
         'block diagonal over the leading axes), of einsum blocks (np.einsum) and of the user atoms is the reference of '
         'every evaluation method; FFT methods are compared within 1e-4 (float32 FFT), inputs being half-integers',
     ]
+
+    # -- T-tie: which definition of as_matrix every class resolves to ---------------------------------
+    def translate(self):
+        import tables
+
+        self.stats['tables'] = tables.generate(self.gen_dir)
+
+    def gen_files(self):
+        return ['Tables.v']
 
     # -- cases ---------------------------------------------------------------------------------
     def cases(self):
@@ -677,6 +843,8 @@ class Check(PropertyCheck):
         # 8. the configuration scope: every evaluation method / tuning parameter
         out += self._toeplitz_cases(rng, quick)
         out += self._solver_cases(rng, quick)
+        # 9. the complex scope: complex parameters on complex structures, every class under every wrapper
+        out += self._complex_cases(rng, quick)
         self.stats['operands'] = len(names)
         return out
 
@@ -794,6 +962,168 @@ class Check(PropertyCheck):
                 fam = [f for f in fam if f[3]] + rng.sample(rest, min(5, len(rest)))
             for tag, let, e, _ in fam:
                 out.append({'kind': f'dtype-{tag}', 'dtypes': f'{pd} on {sd}', 'let': let, 'e': e})
+        return out
+
+    # -- complex scope -----------------------------------------------------------------------------
+    # complex parameters on COMPLEX input structures (a complex-linear map complex -> complex): every leaf class,
+    # under every wrapper.  The imaginary parts are never zero, the matrices neither symmetric nor Hermitian: a
+    # conjugation, a real part or an adjoint taken for a transpose is visible in every case.
+    CSQ = {'re': [[2, 1, 0], [0, 3, 1], [1, 0, 2]], 'im': [[1, 0, 0.5], [0.5, -1, -1], [0, 1, 2]], 'dt': C64}
+    CHPD = {'re': [[4, 1, 0], [1, 3, 1], [0, 1, 2]], 'im': [[0, 1, 0], [-1, 0, 0.5], [0, -0.5, 0]], 'dt': C64}
+    CSCAL = {'re': 1, 'im': 0.5}
+
+    def _complex_leaves(self, rng):
+        """name -> (let, square-and-invertible?): the operator is let['L']."""
+        cv = lambda shape: self._pvals(rng, shape, C64, C64)  # noqa: E731
+        s1, s2 = leaf([3], C64), leaf([2, 3], C64)
+        spt = {'dict': {'b': leaf([3], C64), 'a': leaf([3, 2], C64)}}
+        spt2 = {'dict': {'b': leaf([3], C64), 'a': leaf([2, 3], C64)}}
+        t = {'list': [leaf([], C64), leaf([1, 2], C64)]}
+        mix = {'k': 'mix', 'm': self._matrix(rng, 3, 9), 'mi': [[rng.choice([-1, 0.5, 1, 2]) for _ in range(9)] for _ in range(3)],
+               's': spt2, 't': t, 'mdt': C64}
+        D = {'k': 'diag2', 'v': cv([3]), 'axis': 0, 's': spt}
+        stokes = {'stokes': 'IQU', 'shape': [2], 'dtype': C64}
+        one = lambda d, sq=False: ({'L': d}, sq)  # noqa: E731
+        return {
+            'dense-ij': one({'k': 'dense2', 'b': cv([2, 3]), 's': s1, 'sub': 'ij,j->i'}),
+            'dense-square': one({'k': 'dense2', 'b': self.CSQ, 's': s1, 'sub': 'ij,j->i'}, True),
+            'dense-default-2d': one({'k': 'dense2', 'b': cv([2, 2]), 's': s2}),
+            'dense-batched': one({'k': 'dense2', 'b': cv([2, 2, 3]), 's': s2, 'sub': 'imn,in->im'}),
+            'dense-pytree': one({'k': 'dense2', 'b': cv([2, 3]), 's': spt}),
+            'bdiag-left': one({'k': 'bdiag2', 'v': cv([2, 3]), 'axis': -1, 's': s1}),
+            'bdiag-plain-pytree': one({'k': 'bdiag2', 'v': cv([3]), 'axis': 0, 's': spt}),
+            'bdiag-right': one({'k': 'bdiag2', 'v': cv([3, 2]), 'axis': 0, 's': s1}),
+            'diag': one(D, True),
+            'diag-last': one({'k': 'diag2', 'v': cv([3]), 'axis': -1, 's': spt2}, True),
+            'diag-nd': one({'k': 'diag2', 'v': cv([2, 3]), 'axis': 0, 's': s2}, True),
+            'diag-inverse': ({'D': D, 'L': {'k': 'expr', 'e': {'I': 'D'}}}, False),
+            'homoth': one({'k': 'homoth2', 'v': self._pvals(rng, [], C64, C64), 's': spt}, True),
+            'homoth-pycomplex': one({'k': 'homoth2', 'v': {'re': 0.5, 'im': -1}, 's': spt}),
+            # (the FFT methods take the real part of their result: the class is annotated for real data)
+            'toeplitz-dense': one({'k': 'toeplitz2', 'band': cv([2]), 's': leaf([4], C64), 'method': 'dense'}),
+            'toeplitz-direct-batched': one({'k': 'toeplitz2', 'band': cv([2, 2]), 's': leaf([2, 3], C64), 'method': 'direct'}),
+            'user-scale': one({'k': 'uscale', 'v': cv([3]), 's': spt2}),
+            'user-mix': one(mix),
+            # parameter-free / real-parameter classes on complex data
+            'ident': one({'k': 'ident', 's': spt}),
+            'index': one({'k': 'index', 'idx': [{'arr': [2, 0, 2]}], 's': spt}),
+            'index-unique': one({'k': 'index', 'idx': [{'arr': [2, 0]}], 's': spt, 'unique': True}),
+            'pack': one({'k': 'pack', 'mask': [True, False, True], 's': s1}),
+            'moveaxis': one({'k': 'moveaxis', 'src': 0, 'dst': 1, 's': s2}),
+            'ravel': one({'k': 'ravel', 's': {'list': [s2, s1]}}),
+            'reshape': one({'k': 'reshape', 'shape': [3, 2], 's': s2}),
+            'qurot': one({'k': 'qurot2', 'q': [1, 0.5], **stokes}),
+            'hwp': one({'k': 'hwp2', **stokes}),
+            'polarizer': one({'k': 'pol2', **stokes}),
+        }
+
+    def _complex_wrappers(self):
+        """name -> extra let entries around the operator L (the case is X); the last four need an invertible L."""
+        c = self.CSCAL
+        lazy = {'k': 'lazyT', 'of': 'L'}
+        return {
+            'T': {'X': {'k': 'expr', 'e': {'T': 'L'}}},
+            'lazyT': {'X': lazy},
+            'lazyT-lazyT': {'Y': lazy, 'X': {'k': 'lazyT', 'of': 'Y'}},
+            'smul-of-lazyT': {'Y': lazy, 'X': {'k': 'smul2', 'c': c, 'of': 'Y'}},
+            'lazyT-of-smul': {'Y': {'k': 'smul2', 'c': c, 'of': 'L'}, 'X': {'k': 'lazyT', 'of': 'Y'}},
+            'lazyT-of-neg': {'Y': {'k': 'expr', 'e': {'neg': 'L'}}, 'X': {'k': 'lazyT', 'of': 'Y'}},
+            'lazyT-in-bdiagop': {'Y': lazy, 'X': {'k': 'bdiagop', 'blocks': {'dict': {'q': 'Y', 'c': 'L'}}}},
+            'gram': {'Y': lazy, 'X': {'k': 'expr', 'e': {'comp': ['Y', 'L']}}},
+            'lazyT-of-sum': {'Y': {'k': 'expr', 'e': {'sum': ['L', 'L']}}, 'X': {'k': 'lazyT', 'of': 'Y'}},
+            'sum-of-lazyT': {'Y': lazy, 'X': {'k': 'expr', 'e': {'sum': ['Y', 'Y', 'Y']}}},
+            'lazyT-of-row': {'Y': {'k': 'row', 'blocks': {'dict': {'q': 'L', 'c': 'L'}}}, 'X': {'k': 'lazyT', 'of': 'Y'}},
+            'col-of-lazyT': {'Y': lazy, 'X': {'k': 'col', 'blocks': ['Y', 'Y']}},
+            'inverse-LU': {'X': {'k': 'inv', 'of': 'L', 'solver': 'LU'}},
+            'inverse-of-lazyT': {'Y': lazy, 'X': {'k': 'inv', 'of': 'Y', 'solver': 'LU'}},
+            'lazyT-of-inverse': {'Y': {'k': 'inv', 'of': 'L', 'solver': 'LU'}, 'X': {'k': 'lazyT', 'of': 'Y'}},
+            'inverse-in-block': {'Y': {'k': 'inv', 'of': 'L', 'solver': 'LU'}, 'Z': {'k': 'lazyT', 'of': 'L'},
+                                 'X': {'k': 'bdiagop', 'blocks': {'dict': {'z': 'Y', 'a': 'Z'}}}},
+        }
+
+    INVERSE_WRAPPERS = ('inverse-LU', 'inverse-of-lazyT', 'lazyT-of-inverse', 'inverse-in-block')
+
+    def _complex_composites(self, rng):
+        """Lazy and class-defined transposes of products / sums / block operators of complex leaves, and composites of
+        lazy transposes: (tag, let)."""
+        cv = lambda shape: self._pvals(rng, shape, C64, C64)  # noqa: E731
+        s1 = leaf([3], C64)
+        base = {
+            'W': {'k': 'dense2', 'b': cv([2, 3]), 's': s1, 'sub': 'ij,j->i'},
+            'V': {'k': 'dense2', 'b': cv([2, 3]), 's': s1, 'sub': 'ij,j->i'},
+            'U': {'k': 'bdiag2', 'v': cv([2, 3]), 'axis': -1, 's': s1},
+            'P': {'k': 'dense2', 'b': cv([2, 2]), 's': leaf([2], C64), 'sub': 'ij,j->i'},
+            'N': {'k': 'homoth2', 'v': {'re': 0.5, 'im': -1}, 's': s1},
+            'WT': {'k': 'lazyT', 'of': 'W'}, 'VT': {'k': 'lazyT', 'of': 'V'}, 'UT': {'k': 'lazyT', 'of': 'U'},
+        }
+        inner = {
+            'comp': {'k': 'expr', 'e': {'mm': ['P', 'W']}},
+            'comp3': {'k': 'expr', 'e': {'comp': ['P', 'W', 'N']}},
+            'sum': {'k': 'expr', 'e': {'add': ['W', 'V']}},
+            'sum3': {'k': 'expr', 'e': {'sum': ['W', 'V', 'W']}},
+            'row': {'k': 'row', 'blocks': {'dict': {'q': 'W', 'c': 'V'}}},
+            'col': {'k': 'col', 'blocks': ['W', 'U']},
+            'bdiagop': {'k': 'bdiagop', 'blocks': {'dict': {'q': 'N', 'c': 'W', 'm': 'U'}}},
+            'scaled': {'k': 'smul2', 'c': self.CSCAL, 'of': 'W'},
+        }
+        out = []
+        for tag, y in inner.items():
+            out.append((f'lazyT-of-{tag}', {**base, 'Y': y, 'X': {'k': 'lazyT', 'of': 'Y'}}))
+            out.append((f'T-of-{tag}', {**base, 'Y': y, 'X': {'k': 'expr', 'e': {'T': 'Y'}}}))
+        out.append(('lazyT-of-nested-blocks', {**base, 'R': inner['row'], 'Y': {'k': 'bdiagop', 'blocks': {'tuple': ['N', 'R']}}, 'X': {'k': 'lazyT', 'of': 'Y'}}))
+        outer = {
+            'row-of-lazyT': {'k': 'row', 'blocks': {'dict': {'q': 'WT', 'c': 'UT', 'a': 'N'}}},
+            'col-of-lazyT': {'k': 'col', 'blocks': {'tuple': ['WT', 'VT']}},
+            'bdiagop-of-lazyT': {'k': 'bdiagop', 'blocks': {'dict': {'q': 'WT', 'c': 'U', 'm': 'UT'}}},
+            'sum-of-lazyT': {'k': 'expr', 'e': {'sum': ['WT', 'VT', 'WT']}},
+            'sub-of-lazyT': {'k': 'expr', 'e': {'sub': ['WT', 'VT']}},
+            'product-lazyT-left': {'k': 'expr', 'e': {'mm': ['WT', 'P']}},
+            'product-lazyT-right': {'k': 'expr', 'e': {'comp': ['P', 'W', 'UT']}},
+            'product-of-lazyT': {'k': 'expr', 'e': {'comp': ['WT', {'T': 'P'}]}},
+        }
+        for tag, x in outer.items():
+            out.append((tag, {**base, 'X': x}))
+        # lazy inverses of complex operators: every solver that applies to the matrix
+        sq = {'k': 'dense2', 'b': self.CSQ, 's': s1, 'sub': 'ij,j->i'}
+        hpd = {'k': 'dense2', 'b': self.CHPD, 's': s1, 'sub': 'ij,j->i'}
+        for solver in ('LU', 'GMRES'):
+            out.append((f'inverse-{solver}', {'S': sq, 'X': {'k': 'inv', 'of': 'S', 'solver': solver}}))
+        for solver in ('CG', 'BiCGStab', 'LU'):
+            out.append((f'inverse-hermitian-{solver}', {'S': hpd, 'X': {'k': 'inv', 'of': 'S', 'solver': solver}}))
+        out.append(('inverse-of-gram', {'W': base['W'], 'WT': base['WT'], 'N': base['N'], 'G': {'k': 'expr', 'e': {'add': [{'mm': ['WT', 'W']}, 'N']}},
+                                       'X': {'k': 'inv', 'of': 'G', 'solver': 'LU'}}))
+        return out
+
+    # leaves whose class has no transpose() of its own: op.T IS the lazy TransposeOperator (the 'T' and 'lazyT' cases coincide)
+    LAZY_T_LEAVES = ('bdiag-left', 'bdiag-plain-pytree', 'bdiag-right', 'user-scale', 'user-mix', 'index', 'index-unique', 'pack',
+                     'polarizer')
+
+    def _complex_cases(self, rng, quick):
+        leaves, wraps = self._complex_leaves(rng), self._complex_wrappers()
+        combos = [(ln, wn) for ln, (_, sq) in leaves.items() for wn in wraps if sq or wn not in self.INVERSE_WRAPPERS]
+        bare = list(leaves)
+        self.stats['complex_leaf_x_wrapper_in_scope'] = len(combos)
+        if quick:
+            # every leaf class under the lazy TransposeOperator and under its own .T; every other wrapper at least once,
+            # on different leaves, + 8 sampled combinations; 8 sampled bare leaves (all of them are blocks / operands of
+            # the wrapped cases)
+            fixed = [c for c in combos if c[1] == 'lazyT' or (c[1] == 'T' and c[0] not in self.LAZY_T_LEAVES)]
+            rest = [c for c in combos if c[1] not in ('lazyT', 'T')]
+            rng.shuffle(rest)
+            keep, seen = [], set()
+            for ln, wn in rest:
+                if wn not in seen and ln not in {k[0] for k in keep}:
+                    seen.add(wn)
+                    keep.append((ln, wn))
+            combos = fixed + keep + rest[-8:]
+            bare = rng.sample(bare, 8)
+        out = []
+        for ln in bare:
+            out.append({'kind': 'complex-leaf', 'dtypes': 'complex64 on complex64', 'leaf': ln, 'let': leaves[ln][0], 'e': 'L'})
+        for ln, wn in combos:
+            out.append({'kind': f'complex-{wn}', 'dtypes': 'complex64 on complex64', 'leaf': ln, 'let': {**leaves[ln][0], **wraps[wn]}, 'e': 'X'})
+        for tag, let in self._complex_composites(rng):
+            out.append({'kind': f'complex-{tag}', 'dtypes': 'complex64 on complex64', 'let': let, 'e': 'X'})
         return out
 
     # -- configuration scope -----------------------------------------------------------------------
@@ -981,9 +1311,15 @@ class Check(PropertyCheck):
             'default} x explicit FFT sizes 2K-1..2K+4, batched bands and data, configured operators inside composites '
             '[quick: 45 fixed incl. every method at K > n and odd and even sizes at K > n and over several blocks + 14 sampled + 10 batched + 3 '
             'composites]; lazy inverses under the solvers CG / BiCGStab / GMRES / NormalCG / LU / Auto, with a '
-            'preconditioner, on a non-symmetric operand, inside a block. Non-trivial: the class of the operator overrides '
+            'preconditioner, on a non-symmetric operand, inside a block; the complex scope: complex64 parameters on '
+            'complex64 structures x 28 leaf forms (every class) x 16 wrappers (op.T, lazy TransposeOperator single / double / '
+            'of and under scalar multiples, negations, sums, blocks, Gram products, lazy inverses LU of / under / beside lazy '
+            'transposes) + 31 composites (lazy and class-defined transposes of products / sums / block row / column / diagonal '
+            '/ nested blocks, composites of lazy transposes, lazy inverses under LU / GMRES / CG / BiCGStab) [quick: every '
+            'leaf under the lazy transpose and under its own .T, every wrapper once + 8 sampled, 8 bare leaves, all '
+            'composites], each with a closed-form NumPy reference. Non-trivial: the class of the operator overrides '
             'as_matrix, the structure has several leaves, the output dtype is wider than the input dtype, or the operator '
-            'carries an explicit configuration.'
+            'carries an explicit configuration, or the data are complex.'
         )
 
     def distribution(self, cases):
@@ -1108,7 +1444,7 @@ class Check(PropertyCheck):
 
     def _linearity(self, op, mv, approx):
         """op(a x + b y) = a op(x) + b op(y) and op(x) = M flat(x), with small integer data (complex integers on
-        complex leaves)."""
+        complex leaves; complex integer coefficients a, b when every input leaf is complex)."""
         j = A.J()
         jax, jnp = j['jax'], j['jnp']
         rs = np.random.RandomState(self.seed + 17)
@@ -1124,9 +1460,12 @@ class Check(PropertyCheck):
                 out.append(jnp.asarray(v.astype(np.dtype(l.dtype))))
             return jax.tree.unflatten(treedef, out)
 
+        cplx_in = bool(leaves) and all(is_complex_dtype(l.dtype) for l in leaves)
         for _ in range(2):
             x, y = rand(), rand()
             a, b = int(rs.randint(-3, 4)), int(rs.randint(-3, 4))
+            if cplx_in:  # linear over the scalars of the input space: Gaussian integers
+                a, b = complex(a, int(rs.randint(1, 3))), complex(b, int(rs.randint(-2, 0)))
             try:
                 z = jax.tree.map(lambda u, v: a * u + b * v, x, y)
                 fz, fx, fy = op.mv(z), op.mv(x), op.mv(y)
@@ -1177,7 +1516,7 @@ class Check(PropertyCheck):
         return cs[:300]
 
     def nontrivial(self, case, obs):
-        return isinstance(obs, dict) and bool(obs.get('overrides') or obs.get('wide') or obs.get('configured') or len(_leaves(obs.get('in'))) > 1 or len(_leaves(obs.get('out'))) > 1)
+        return isinstance(obs, dict) and bool(obs.get('overrides') or obs.get('wide') or obs.get('configured') or obs.get('complex') or len(_leaves(obs.get('in'))) > 1 or len(_leaves(obs.get('out'))) > 1)
 
     def finding_key(self, case, obs):
         return None
